@@ -82,11 +82,12 @@ class Shape:
     pathform: str = "abs"  # 'abs' | 'rel' (relative to cwd)
     outdir: str = "abs"  # 'abs' | 'rel' explicit output directory | 'default' (none given)
     quiet: bool = False  # -q
+    environ: str = ""  # '' | 'east' | 'west': another clock zone (26 hours apart, so the DATE differs), user, home, terminal
     decoys: bool = False  # the working directory holds OTHER files under the relative paths of the unit's files
     stale: str = ""  # '' | 'long' | 'short': the output directory already holds files with the names about to be written
 
     def text(self) -> str:
-        return f"PYTHONHASHSEED={self.hashseed} cwd={self.cwd} path={self.pathform} outdir={self.outdir}{' -q' if self.quiet else ''}{' stale-' + self.stale + '-outputs-present' if self.stale else ''}{' same-named-decoy-files-in-cwd' if self.decoys else ''}"
+        return f"PYTHONHASHSEED={self.hashseed} cwd={self.cwd} path={self.pathform} outdir={self.outdir}{' -q' if self.quiet else ''}{' stale-' + self.stale + '-outputs-present' if self.stale else ''}{' same-named-decoy-files-in-cwd' if self.decoys else ''}{' environment-' + self.environ if self.environ else ''}"
 
 
 CANONICAL = Shape()
@@ -137,7 +138,25 @@ def run_fresh(texts: Dict[str, str], main: str, opts: Opts, shape: Shape = CANON
         for ext in {"c": (".h", ".c"), "go": (".go",), "py": (".py",)}[opts.lang]:
             with open(os.path.join(where, base + ext), "w") as fh:
                 fh.write("// stale output of an earlier compilation\n" * (40000 if shape.stale == "long" else 1))
-    r = bpapi.cli(args, cwd=cwd, env_extra={"PYTHONHASHSEED": shape.hashseed})
+    extra = {"PYTHONHASHSEED": shape.hashseed}
+    if shape.environ:
+        # nothing of the environment may reach the output: the two zones are 26 hours apart, so even a DATE differs
+        east = shape.environ == "east"
+        extra.update(
+            {
+                "TZ": "Pacific/Kiritimati" if east else "Etc/GMT+12",
+                "USER": "alice" if east else "bob",
+                "LOGNAME": "alice" if east else "bob",
+                "HOME": other,
+                "HOSTNAME": "build-east" if east else "build-west",
+                "TERM": "dumb" if east else "xterm-256color",
+                "COLUMNS": "20" if east else "200",
+                "NO_COLOR": "1" if east else "",
+                "LANG": "C.UTF-8",
+                "SOURCE_DATE_EPOCH": "86400" if east else "1700000000",
+            }
+        )
+    r = bpapi.cli(args, cwd=cwd, env_extra=extra)
     res = CliRun(r.returncode, r.stderr, outputs(root), args, root)
     if not keep:
         env.rmtree(root)
